@@ -211,6 +211,12 @@ def fold_str_expr(e: ast.AST, env: dict):
     if isinstance(e, ast.Call):
         if isinstance(e.func, ast.Name) and e.func.id == "len" and len(e.args) == 1 and not e.keywords:
             return len(fold_str_expr(e.args[0], env))
+        if ast.unparse(e.func) in ("os.path.basename", "basename") and len(e.args) == 1 and not e.keywords:
+            v = fold_str_expr(e.args[0], env)
+            return v.rsplit("/", 1)[-1] if isinstance(v, str) else (_ for _ in ()).throw(Unfoldable("basename"))
+        if ast.unparse(e.func) in ("os.path.dirname", "dirname") and len(e.args) == 1 and not e.keywords:
+            v = fold_str_expr(e.args[0], env)
+            return (v.rsplit("/", 1)[0] if "/" in v else "") if isinstance(v, str) else (_ for _ in ()).throw(Unfoldable("dirname"))
         if isinstance(e.func, ast.Attribute) and e.func.attr in _STR_METHODS and not e.keywords:
             recv = fold_str_expr(e.func.value, env)
             if not isinstance(recv, str) and not (isinstance(recv, (list, tuple)) and e.func.attr in ("count",)):
